@@ -256,6 +256,7 @@ def run(tier: str, seed: int, rep: Report, model: Model) -> dict:
     rep.rule = ("histories of 3-7 steps over one function with a provider (fresh or long-lived dict; values changed by rebinding or in place; "
                 "empty / unused / used-in-expression names) and single calls with self / bad providers; distinct = distinct history or case; "
                 "non-trivial = the provider value changes during the history (or the provider is self / bad)")
+    rep.rule += '; plus histories over several instances of one class with a "self" provider (bound method, class attribute, self= keyword) and objects of one class that differ in having get_dltype_scope'
     hists = []
     while len(hists) < n_hist:
         h = gen_history(rnd)
